@@ -423,3 +423,35 @@ def m_clone(ex, m, args, tys, st, fn):
     if cands:
         return ex.exec_fn(cands[0], args, st, 1)
     return [(st, ex.deref(args[0]))]
+
+
+# ---- ranges (loop counters)
+@model(r"^<(?:std::ops::)?Range<usize> as (?:std::iter::)?IntoIterator>::into_iter$")
+def m_range_into_iter(ex, m, args, tys, st, fn):
+    return [(st, args[0])]
+
+
+@model(r"^<(?:std::ops::)?Range<usize> as (?:std::iter::)?Iterator>::next$")
+def m_range_next(ex, m, args, tys, st, fn):
+    r = args[0]
+    rng = ex.deref(r)
+    start, end = rng.fields
+    out = []
+    for s2, more in _fork2(st, tm.lt(start, end)):
+        if more:
+            # the reference lives in the frame stack of this path: re-resolve it after a fork
+            r2 = r if s2 is st else _reresolve(ex, st, s2, r)
+            ex.write_ref(r2, Agg([tm.add(start, I(1)), end]))
+            out.append((s2, Enum(1, {1: [start]}, "Option")))
+        else:
+            out.append((s2, Enum(0, {}, "Option")))
+    return out
+
+
+def _reresolve(ex, st, s2, r):
+    """Find in forked state s2 the cell that corresponds to r.cell in st (same frame, same local)."""
+    for fa, fb in zip(st.frames, s2.frames):
+        for k, c in fa.items():
+            if c is r.cell:
+                return Ref(fb[k], r.path)
+    raise Unsupported("reference target not found after fork")
